@@ -17,7 +17,7 @@ RULE_TEXT = ("C08-C: the payload class of each quoted-string recogniser denotes 
              "application of one, the error kind Incomplete is either propagated or excluded by an explicit kind test on "
              "that path - never dropped by optional/or_else/unwrap_or/map_err; optional() wraps no such parser. "
              "C08-V: the Value delivered is exactly the taken span. C08-R: run answers Incomplete silently with the "
-             "input unchanged - on every parse-error path that has not excluded Incomplete - and starts every call at the root; run:resume-keeps-path: the header path of the units already executed survives the resumption of a message (open finding F9)."
+             "input unchanged - on every parse-error path that has not excluded Incomplete - and starts every call at the root; run:resume-keeps-path: the header path of the units already executed survives the resumption of a message (open finding F9). run:resume-keeps-state: run carries no other local from unit to unit (it would be lost at a resumption as well)."
              " C08-PR: the contracts of the parser combinators the skeleton builds on are read from their bodies - satisfy (accept first byte iff pred / soft error / Incomplete on empty), take_while (never fails; longest prefix, position() form or counting-loop form), optional (never fails; Some(value) or input untouched), tag(b) = satisfy(== b).")
 
 
@@ -181,6 +181,30 @@ def rule_I(ck, lib, sk, rid):
     ck.floor(rid, "failing applications of newline-transparent parsers examined", n_prop, 5)
 
 
+def rule_N(ck, lib, sk, rid):
+    """Only strings and blocks may contain the terminator byte: every recogniser that can itself run across a newline
+    delivers a `Value::String` or `Value::Arbitrary`. Any other one would answer a *complete* message (one that leaves no
+    string or block open) with Incomplete - no error reported, the message and everything behind it waits for more."""
+    n = 0
+    for p, f in sorted(sk.fns.items()):
+        if f["kind"] != "direct":
+            continue
+        why = sk.own_nt(p)
+        if not why:
+            continue
+        n += 1
+        ctors = set()
+        for x in f["exits"]:
+            c, v = value_ctor(sk, x)
+            r = sk.exit_result(x)
+            if r and r[0][0] == "ok":
+                ctors.add(c or "?")
+        ck.judge(ctors and ctors <= {"String", "Arbitrary"}, rid, "nt-leaf#%d:%s" % (n, "+".join(sorted(ctors))), "%s runs across newlines (%s) and delivers %s" % (p.split("::")[-1], ", ".join(why), sorted(ctors)),
+                 "%s can run across a newline (%s) but delivers %s: program data other than a string or block that contains the terminator byte leaves a complete message unanswered (Incomplete)"
+                 % (p.split("::")[-1], ", ".join(why), sorted(ctors) or "no value"), loc=f.get("loc"))
+    ck.floor(rid, "recognisers that run across newlines by their own body", n, 3)
+
+
 def rule_R(ck, lib):
     rs = runsum.RunSummary(ck, lib)
     if not rs.ok:
@@ -216,6 +240,13 @@ def rule_R(ck, lib):
                  "a unit answered Incomplete (a string or block whose payload contains the newline at which process called run) is retried by a new call of run at the ROOT, "
                  "but when it was first tried the path could be `%s` (set by an earlier unit of the same message): streamed, `A:B;C 'x\\ny'` resolves C at the root instead of under A"
                  % (show_term(moved[0][0]) if moved else "?"), data=pathsum.show_exit(moved[0][1])[:1200] if moved else None)
+    # the same holds for any other local that run carries from unit to unit: a call of run that ends with Incomplete forgets
+    # it, and the units of the message that follow the payload newline are executed without it
+    vars_ = rs.ps.loops.get(rs.loop_site, {}).get("vars", {})
+    extra = sorted(n for i, n in vars_.items() if i not in (rs.path_id, rs.input_id))
+    ck.judge(not extra, "C08-R", "run:resume-keeps-state", "run carries nothing but (input, path) from unit to unit",
+             "run carries %s from unit to unit; it is a local of one call, so it is lost when a message is resumed after a payload newline "
+             "(the units behind the newline execute differently from the same message without it)" % extra)
     for st in rs.ps.loops.get(rs.loop_site, {"entry": []})["entry"]:
         v = st.env.get(rs.path_id)
         ck.judge(v is not None and runsum.is_root(v), "C08-R", "run:restart-at-root", "every run call starts at the root", "run does not start at the root")
